@@ -454,6 +454,11 @@ double gen_number(Rng &r, bool allow_nonfinite, bool plain) {
             static const double scale[] = {1e-20, 1e-300, 1e-17, 5e-324, 1e-9};
             return (double)r.range(-4, 4) * scale[r.below(5)];
         }
+        if (r.chance(1, 12)) {  // whole numbers beyond the int range and at its ends (pairwise different by far more than an epsilon)
+            static const double big[] = {3000000000.0, 10000000000.0, 20000000000.0, -3000000000.0, -10000000000.0, 4294967296.0, 2147483648.0, 2147483647.0,
+                                         -2147483648.0, -2147483647.0, -2147483649.0, 1099511627776.0, 4503599627370496.0, -4503599627370496.0};
+            return big[r.below(14)];
+        }
         switch (r.below(4)) {
             case 0: return (double)r.range(-20, 20);
             case 1: return (double)r.range(-100000, 100000);
@@ -464,7 +469,8 @@ double gen_number(Rng &r, bool allow_nonfinite, bool plain) {
     switch (r.below(16)) {
         case 0: return (double)r.range(-10, 10);
         case 1: return (double)r.range(-100000, 100000);
-        case 2: { static const double b[] = {2147483647.0, 2147483648.0, -2147483648.0, -2147483649.0, 2147483646.0, 4294967296.0, 2147483647.5, -2147483648.5}; return b[r.below(8)]; }
+        case 2: { static const double b[] = {2147483647.0, 2147483648.0, -2147483648.0, -2147483649.0, 2147483646.0, 4294967296.0, 2147483647.5, -2147483648.5,
+                                              -2147483647.0, -2147483647.5, -2147483646.0, 2147483646.5, 2147483648.5, -2147483647.25, 3000000000.0, -3000000000.0}; return b[r.below(16)]; }
         case 3: { double base = 1e15; return (r.chance(1, 2) ? 1 : -1) * (base + (double)r.range(-3, 3)); }
         case 4: { static const double b[] = {999999999999999.0, 1e15, 1000000000000001.0, 9007199254740991.0, 9007199254740992.0, 9007199254740993.0, 123456789012345.0, 99999999999999.98}; return (r.chance(1, 2) ? 1 : -1) * b[r.below(8)]; }
         case 5: return std::pow(10.0, (double)r.range(-320, 308));
